@@ -109,12 +109,23 @@ func c16Gen(r *obs.Run) []c16pair {
 		out = append(out, p)
 	}
 	if far { // applied at the end, so that no other interval is derived from these
+		// The starts stay within a span of less than 2^63: the interval tree of the
+		// github.com/biogo/store dependency orders its nodes by subtracting starts, and a
+		// wider span than that is outside what the property quantifies over.
+		minS := 0
+		for _, p := range out {
+			for _, v := range []c16iv{p.A, p.B} {
+				if v.S < minS {
+					minS = v.S
+				}
+			}
+		}
 		for k := range out {
 			if rng.Intn(3) == 0 {
 				p := out[k]
 				p.B.E = math.MaxInt64
 				if rng.Intn(2) == 0 {
-					p.B.S = math.MaxInt64 - 1 - rng.Intn(30)
+					p.B.S = math.MaxInt64 - 1 - rng.Intn(30) + minS
 				}
 				if !seen[c16Key(p)] {
 					seen[c16Key(p)] = true
